@@ -552,13 +552,11 @@ fn random_any_config(rng: &mut Rng) -> config::Encoder {
     c
 }
 
-pub fn run_c19(ctx: &Ctx) -> i32 {
-    let mut out = Outcome::default();
-    let n = ctx.tier.pick(12_000, 240_000);
-    run_cases(ctx, "roundtrip", n, &mut out, |idx, out| {
-        let mut rng = Rng::for_case(ctx.seed, "C19.roundtrip", idx);
+fn c19_roundtrip(ctx: &Ctx, sub: &'static str, n: u64, out: &mut Outcome) {
+    run_cases(ctx, sub, n, out, |idx, out| {
+        let mut rng = Rng::for_case(ctx.seed, &format!("C19.{sub}"), idx);
         let c = if idx == 0 { config::Encoder::default() } else { random_any_config(&mut rng) };
-        let rp = || rpj(ctx, "roundtrip", idx, json!({"config": format!("{c:?}")}));
+        let rp = || rpj(ctx, sub, idx, json!({"config": format!("{c:?}")}));
         out.evaluations += 1;
         let text = match catch(|| toml::to_string(&c)) {
             Ok(Ok(t)) => t,
@@ -648,9 +646,22 @@ pub fn run_c19(ctx: &Ctx) -> i32 {
             }
         }
         if idx < 2 {
-            out.sample(json!({"sub": "roundtrip", "document": text}));
+            out.sample(json!({"sub": sub, "document": text}));
         }
     });
+}
+
+pub fn run_c19(ctx: &Ctx) -> i32 {
+    let mut out = Outcome::default();
+    let n = ctx.tier.pick(12_000, 240_000);
+    std::env::remove_var("FLACENC_WORKERS");
+    c19_roundtrip(ctx, "roundtrip", n, &mut out);
+    // the same oracle with the library's worker-count environment override set in this process:
+    // serialisation, parsing and the documented defaults must not depend on the environment
+    // (set while no harness thread runs; `run_cases` starts and joins its own threads)
+    std::env::set_var("FLACENC_WORKERS", "3");
+    c19_roundtrip(ctx, "roundtrip_env", n / 3, &mut out);
+    std::env::remove_var("FLACENC_WORKERS");
     // the documented example of the module docs and the empty document
     run_cases(ctx, "documents", 2, &mut out, |idx, out| {
         out.evaluations += 1;
